@@ -1,5 +1,10 @@
 use crate::{ansi::parse_next_number, EngineResult, Palette, ParserError, Position, Rectangle, Size};
 
+/// Largest width and height of a sixel image in pixels (xterm's default limit is 1000, libsixel's 65535).
+/// 4096 x 4096 RGBA pixels are 64 MiB; a raster header, a repeat count or a cursor position beyond it
+/// is an `InvalidPictureSize` error instead of an allocation that follows a number in the data.
+pub const MAX_SIXEL_DIMENSION: i32 = 4096;
+
 #[derive(Clone, Debug, Copy)]
 pub enum SixelState {
     Read,
@@ -150,6 +155,9 @@ impl SixelParser {
                     if self.parsed_numbers.len() < 2 || self.parsed_numbers.len() > 4 {
                         return Err(ParserError::InvalidPictureSize.into());
                     }
+                    if self.parsed_numbers[2..].iter().any(|n| *n > MAX_SIXEL_DIMENSION) {
+                        return Err(ParserError::InvalidPictureSize.into());
+                    }
                     self.vertical_scale = self.parsed_numbers[0];
                     self.horizontal_scale = self.parsed_numbers[1];
                     if self.parsed_numbers.len() == 3 {
@@ -177,6 +185,9 @@ impl SixelParser {
                     self.parsed_numbers.push(parse_next_number(d, ch as u8));
                 } else {
                     if let Some(i) = self.parsed_numbers.first() {
+                        if *i > MAX_SIXEL_DIMENSION {
+                            return Err(ParserError::InvalidPictureSize.into());
+                        }
                         for _ in 0..*i {
                             self.parse_sixel_data(ch)?;
                         }
@@ -209,6 +220,9 @@ impl SixelParser {
         let mut last_line = y_pos + 6;
         if self.height_set && last_line > self.height() {
             last_line = self.height();
+        }
+        if x_pos >= MAX_SIXEL_DIMENSION || last_line > MAX_SIXEL_DIMENSION {
+            return Err(ParserError::InvalidPictureSize.into());
         }
 
         if (self.picture_data.len() as i32) < last_line {
